@@ -493,6 +493,41 @@ theorem progress_partial (s : State) (choice : List Entry) (e : Entry)
       omega
     omega
 
+/-- Take-up: every new key of a multi-key advertisement that lies within the range (or when no range is set) is,
+after the call, queued for that holder or in flight — unless the holder is reported as timed out by this call. -/
+theorem multi_key_takeup (s : State) (h : Nat) (incoming locals : List (Nat × Nat)) (choice : List Entry)
+    (p : Nat × Nat) (hp : p ∈ incoming.filter (admits dist s locals h))
+    (hmulti : (incoming.filter (admits dist s locals h)).length ≠ 1)
+    (hr : ∀ r, s.range = some r → dist p.1 ≤ r)
+    (hresp : h ∉ (addKeys dist s h incoming locals choice).2.failed) :
+    hasKTH (addKeys dist s h incoming locals choice).1.tbf p.1 p.2 h = true ∨
+    hasKT (addKeys dist s h incoming locals choice).1.ogf p.1 p.2 = true := by
+  obtain ⟨X, ill, hx⟩ := addKeys_shape dist s h incoming locals choice
+  rw [hx] at hresp ⊢
+  have hf := (nextKeys_fields dist (addCore dist s h incoming locals).1 X).2.2.2
+  -- the key is queued before the final `next_keys_to_fetch`
+  have hq : hasKTH (addCore dist s h incoming locals).1.tbf p.1 p.2 h = true := by
+    rcases addCore_cases dist s h incoming locals with ⟨q, hq, _, _⟩ | ⟨q, hq, _, _⟩ | ⟨_, hc⟩
+    · exact absurd (by rw [show incoming.filter (admits dist s locals h) = [q] from hq]; rfl) hmulti
+    · exact absurd (by rw [show incoming.filter (admits dist s locals h) = [q] from hq]; rfl) hmulti
+    · rw [hc]
+      apply insertPending_has
+      unfold new3
+      split
+      · rename_i r hrr
+        exact List.mem_filter.2 ⟨hp, (rangeOk_iff _ _).2 (hr r hrr)⟩
+      · exact hp
+  obtain ⟨e, he, hk, ht, hh⟩ := (hasKTH_true_iff _ _ _ _).1 hq
+  have hep : e ∈ pTbf (addCore dist s h incoming locals).1 := by
+    simp only [pTbf, List.mem_filter, Bool.not_eq_true', List.contains_eq_mem, decide_eq_false_iff_not]
+    refine ⟨he, ?_⟩
+    rw [hh]; rw [hf] at hresp; exact hresp
+  rcases nextKeys_keeps_or_schedules dist (c := X) hep with h1 | h1
+  · exact Or.inl ((hasKTH_true_iff _ _ _ _).2 ⟨e, h1, hk, ht, hh⟩)
+  · right
+    show hasKT (nextKeys dist (addCore dist s h incoming locals).1 X).1.ogf p.1 p.2 = true
+    rw [nextKeys_ogf_eq, hasKT_append, ← hk, ← ht, h1, Bool.or_true]
+
 /-! ## non-vacuity: the hypotheses are satisfiable and the operations do schedule -/
 
 /-- two holders, a multi-key list, a legal batch in distance order, then the same version from another holder is
@@ -535,6 +570,7 @@ example : Reachable (fun k => k) (run (fun k => k) State.init [.age 3]) := ⟨[.
 #print axioms SafeNet.Props.C08.inflight_leaves_timeout
 #print axioms SafeNet.Props.C08.timeout_reports_and_drops
 #print axioms SafeNet.Props.C08.new_version_fetched
+#print axioms SafeNet.Props.C08.multi_key_takeup
 #print axioms SafeNet.Props.C08.progress_partial
 
 end SafeNet.Props.C08
